@@ -723,8 +723,8 @@ Definition blocks_of (s : store) : list addr := sub_entities s s_data 0%nat.
 Definition members (s : store) (c : ckind) : list addr :=
   match c with
   | CBlocks => blocks_of s
-  | CSources => flat_map (fun b => flat_map (fun t => flatten (tree_of tree_depth s s_sources t))
-                                            (sub_entities s s_sources b)) (blocks_of s)
+  (* Section.referring_sources walks blk.find_sources(): breadth first per block *)
+  | CSources => flat_map (fun b => let t := find_tree s KBlock b in Bfs.find false t (size t) (fun _ => true)) (blocks_of s)
   | _ => flat_map (fun b => sub_entities s (cname c) b) (blocks_of s)
   end.
 Definition api_referring (ph : N) (c : ckind) : M (list wtok) :=
